@@ -22,7 +22,8 @@ if "--checks" in sys.argv:
     checks = sys.argv[sys.argv.index("--checks") + 1].split(",")
 if "--all" in sys.argv:
     checks = ["C%02d" % i for i in range(1, 21)]
-sid = "%s-m%s" % (prop, n)
+asn = sys.argv[sys.argv.index("--as") + 1] if "--as" in sys.argv else n
+sid = "%s-m%s" % (prop, asn)
 dst = "/verif/seeded/%s" % sid
 env = dict(os.environ, PYTHONHASHSEED="0")
 
